@@ -51,6 +51,7 @@ import EsbuildModel.Impl.Glob
 import EsbuildModel.Impl.PartDepsDriver
 import EsbuildModel.Impl.ScopesSyntax
 import EsbuildModel.Impl.JsonDriver
+import EsbuildModel.Impl.CssLexDriver
 
 open EsbuildModel
 
@@ -112,6 +113,7 @@ def dispatch (kernel : String) (args : List String) : String :=
   | "partdeps" => PartDeps.driver args
   | "scope" => Scopes.driverAll args
   | "jsonrt" => Json.driver args
+  | "csslex" => CssLex.driver args
   | _ => "bad-kernel"
 
 partial def loop (hin hout : IO.FS.Stream) : IO Unit := do
